@@ -1,7 +1,7 @@
 (** ConnAccept — the pre-authentication decision state of a connection in /repo/connection.go:
     handleOnePacket (version check), handleLongHeaderPacket (source-connection-ID / 0-RTT guards),
     handleRetryPacket, handleVersionNegotiationPacket, handleUnpackedLongHeaderPacket (first packet),
-    checkTransportParameters, and the handshake part of the timer of run()/maybeResetTimer.
+    the transport-params check (connection.go:2384), and the handshake part of the timer of run()/maybeResetTimer.
 
     Executable definitions only.  What is NOT re-implemented and enters as data:
       - wire parsing (the packet arrives as its parsed header fields),
@@ -44,7 +44,7 @@ Inductive pkt :=
 (** Things that happen to the connection. *)
 Inductive op :=
 | OpPkt (p : pkt)
-| OpTP (iscid odcid : cid) (rscid : option cid)               (* peer transport parameters reach handleTransportParameters *)
+| OpTP (iscid odcid : cid) (rscid : option cid)               (* peer transport parameters reach the transport-params handler *)
 | OpDropInitial.                                              (* dropEncryptionLevel(Initial) *)
 
 Record state := mkState {
@@ -77,7 +77,7 @@ Inductive outcome :=
 | ORecreate (v : Z)              (* errCloseForRecreating{nextVersion} *)
 | OVNError                       (* destroyImpl(VersionNegotiationError) *)
 | ORemoteClose                   (* CONNECTION_CLOSE inside an authenticated packet *)
-| OTPOk | OTPError               (* checkTransportParameters *)
+| OTPOk | OTPError               (* the transport-params check (connection.go:2384) *)
 | ONone.
 
 (** Terminal outcomes: the run loop leaves, nothing is handled afterwards. *)
@@ -164,7 +164,7 @@ Definition handle_pkt (s : state) (p : pkt) : state * outcome :=
       else handle_long s ty scid keycid pn pl
   end.
 
-(** checkTransportParameters *)
+(** the transport-params check (connection.go:2384) *)
 Definition opt_cid_eqb (a b : option cid) : bool :=
   match a, b with
   | None, None => true
